@@ -163,7 +163,8 @@ def check_c08(step):
                 warnings.simplefilter("ignore")
                 try:
                     # (an event that uses the reference of the source table needs the references kept)
-                    aliased = parent >> (pdt.alias(keep_col_refs=True) if '"src"' in __import__("json").dumps(step.event) else pdt.alias())
+                    # (plain alias() whenever the event does not use a reference of the main source table)
+                    aliased = parent >> (pdt.alias(keep_col_refs=True) if any(m in __import__("json").dumps(step.event) for m in ('["col", "src", "T"', '["col", "at"')) else pdt.alias())
                     res = I.apply_event(aliased, step.event, ctx)
                     df = res >> pdt.export(pdt.Polars())
                     # and then it is compiled correctly: same frame as polars gave
